@@ -277,3 +277,43 @@ def StableTail (bs : List UInt8) : Prop :=
   ∀ s t : List UInt8, s ≠ [] → s <:+ bs → decodeRune (s ++ t) = decodeRune s
 
 end LC.V2Tok
+
+namespace LC.V2Tok
+open LC.Utf8
+
+/-- `Classifier.Normalize` after tokenisation (normalize = false, so every consumed newline left an
+EOL token `[nl]`): re-emit the words line by line. -/
+def renderLoop : Nat → List Tok → List Rune
+  | _, [] => []
+  | prev, t :: ts =>
+    (if t.line = prev + 1 then [nl] else []) ++
+    (if t.word ≠ [nl] then (if t.line = prev then [32] else []) ++ t.word else []) ++
+    renderLoop t.line ts
+
+def render (toks : List Tok) : List Rune :=
+  match toks with
+  | [] => []
+  | [t] => t.word
+  | t :: ts => (if t.word ≠ [nl] then t.word else []) ++ renderLoop 1 ts
+
+/-- `Normalize(in)` as runes -/
+def normalizeRunes (E : Env) (bs : List UInt8) : List Rune := render (tokenize E false bs).toks
+
+/-- the words (EOL tokens excluded) that carry line `k` -/
+def wordsOnLine (toks : List Tok) (k : Nat) : List Word :=
+  (toks.filter (fun t => t.line = k && t.word != [nl])).map (·.word)
+
+/-- split a rune string into its lines -/
+def splitLines (rs : List Rune) : List (List Rune) :=
+  rs.foldr (fun c (acc : List (List Rune)) =>
+    if c = nl then [] :: acc
+    else match acc with
+      | [] => [[c]]
+      | h :: t => (c :: h) :: t) [[]]
+
+/-- token lines start at 1 and advance by at most one from token to token -/
+def StepOne : Nat → List Tok → Prop
+  | _, [] => True
+  | prev, t :: ts => (t.line = prev ∨ t.line = prev + 1) ∧ StepOne t.line ts
+
+end LC.V2Tok
